@@ -171,56 +171,7 @@ func c07(r *engine.Report, p *engine.Program) {
 		}()))
 	}
 	// O6 blocking channel sends performed with a lock must-held (cone only)
-	for _, fn := range fns {
-		lf := p.Locks(fn)
-		for _, b := range fn.Blocks {
-			for _, in := range b.Instrs {
-				var chans []ssa.Value
-				switch x := in.(type) {
-				case *ssa.Send:
-					chans = append(chans, x.Chan)
-				case *ssa.Select:
-					if !x.Blocking {
-						continue
-					}
-					for _, st := range x.States {
-						if st.Dir == types.SendOnly {
-							chans = append(chans, st.Chan)
-						}
-					}
-				default:
-					continue
-				}
-				if len(chans) == 0 {
-					continue
-				}
-				h := lf.HeldAt(in)
-				if len(h) == 0 {
-					continue
-				}
-				for _, ch := range chans {
-					cf, _ := engine.FieldOfLoad(ch)
-					cname := "?"
-					if cf != nil {
-						cname = cf.Name()
-					}
-					for _, op := range lf.Ops() {
-						if _, held := h[op.Path.String()]; !held || !op.Acquire {
-							continue
-						}
-						key := engine.FuncName(fn) + "|" + cname + "|" + op.Path.Last().Name()
-						construct := fmt.Sprintf("%s: send on %s with %s held", engine.FuncName(fn), cname, op.Path.Last().Name())
-						if why, ok := blockingUnderLockOK[key]; ok {
-							r.Add("O6-blocking-send", construct, in.Pos(), engine.Discharged, "table: "+why)
-						} else {
-							r.Add("O6-blocking-send", construct, in.Pos(), engine.Violated, "a blocking channel send is performed with a Netceptor lock held and is not in the reasoned table of safe receivers")
-						}
-						break
-					}
-				}
-			}
-		}
-	}
+	blockingSendsUnderLock(r, p, "O6-blocking-send", fns)
 	r.Min("O6-blocking-send", 1)
 
 	// O7 positivity of peer-supplied costs (shared with C01-R4)
